@@ -346,6 +346,7 @@ func collectFaults(sum *Summary, ep *Episode) {
 			sum.Faults["ack_applied_answer_lost"] += q.ad.FiredAckLost
 			sum.Faults["bad_entries_injected"] += q.ad.injected
 			sum.Faults["notification_duplicated"] += q.ad.Dups
+			sum.Faults["notification_other_action"] += q.ad.Others
 			sum.Faults["notification_delayed"] += q.ad.Delays
 			sum.Faults["dequeue_lost_race"] += q.ad.lostRace
 		}
